@@ -111,6 +111,19 @@ func (f *File) syncWithoutLocking() error {
 	}
 
 	if f.writeBuf != nil {
+		// The attributes of the entry may have been changed through the filesystem since this handle was opened (`Chmod`,
+		// `Chown`, `Chtimes`); writing the content must not take them back to what they were at open
+		if current, err := inventory.Stat(
+			f.metadata,
+
+			f.path,
+			false,
+
+			f.onHeader,
+		); err == nil {
+			f.info = NewFileInfoFromTarHeader(current, f.log)
+		}
+
 		done := false
 		if _, err := f.writeOps.Update(
 			func() (config.FileConfig, error) {
